@@ -270,7 +270,7 @@ OnCreate(d) ==
                       auth |-> [e1 |-> m.eph, e2 |-> e2], cands |-> [k |-> key, v |-> Cands[n]]]
           IN /\ createdC' = [createdC EXCEPT ![n] = Put(@, cid, [due |-> now + Unstable])]
              /\ exit' = [exit EXCEPT ![n] = Put(@, cid, [prev |-> d.src, pk |-> m.pk, key |-> key, enabled |-> FALSE,
-                                                        open |-> FALSE, act |-> now, born |-> now])]
+                                                        open |-> FALSE, q |-> <<>>, act |-> now, born |-> now])]
              /\ Emit({d}, StampIds(<<Cell(n, d.src, cid, TRUE, FALSE, <<>>, ans)>>))
              /\ ctr' = [ctr EXCEPT !.eph = e2, !.msg = Bump(@, 1)]
              /\ circ' = [circ EXCEPT ![n] = Beat(@, n, cid)]
@@ -404,12 +404,28 @@ OnData(d) ==
         /\ hist' = [hist EXCEPT !.origLog = @ \cup {[n |-> n, cid |-> cid, p |-> Seen(m), origin |-> m.origin]}]
         /\ exit' = exit
      ELSE IF m.dest # Null /\ Has(exit[n], cid) /\ (exit[n][cid].enabled \/ d.src = exit[n][cid].prev) THEN
-        /\ exit' = [exit EXCEPT ![n] = Put(@, cid, [@[cid] EXCEPT !.enabled = TRUE, !.open = TRUE, !.act = now])]
-        /\ hist' = [hist EXCEPT !.exitLog = @ \cup {[n |-> n, cid |-> cid, p |-> Seen(m), dest |-> m.dest]}]
+        \* enable() starts opening the outside sockets; until they exist data waits in the socket's own queue (deque of 10)
+        IF exit[n][cid].open THEN
+           /\ exit' = [exit EXCEPT ![n] = Put(@, cid, [@[cid] EXCEPT !.enabled = TRUE, !.act = now])]
+           /\ hist' = [hist EXCEPT !.exitLog = @ \cup {[n |-> n, cid |-> cid, p |-> Seen(m), dest |-> m.dest]}]
+        ELSE
+           /\ exit' = [exit EXCEPT ![n] = Put(@, cid, [@[cid] EXCEPT !.enabled = TRUE,
+                          !.q = IF Len(@) >= 10 THEN Append(Tail(@), [p |-> Seen(m), dest |-> m.dest])
+                                ELSE Append(@, [p |-> Seen(m), dest |-> m.dest])])]
+           /\ hist' = hist
      ELSE UNCHANGED <<exit, hist>>
   /\ circ' = [circ EXCEPT ![d.dst] = Beat(@, d.dst, d.cid)]
   /\ Emit({d}, <<>>)
   /\ UNCHANGED <<relay, retryC, createdC, createC, pingC, pend, ctr, now, sweepAt, pingAt, budget>>
+
+\* create_transports finished: both outside sockets exist, whatever waited in THIS socket's queue is sent
+TransportsReady(n, cid) ==
+  /\ Has(exit[n], cid) /\ exit[n][cid].enabled /\ ~exit[n][cid].open
+  /\ LET ex == exit[n][cid] IN
+       /\ exit' = [exit EXCEPT ![n] = Put(@, cid, [ex EXCEPT !.open = TRUE, !.q = <<>>,
+                                                       !.act = IF ex.q # <<>> THEN now ELSE @])]
+       /\ hist' = [hist EXCEPT !.exitLog = @ \cup {[n |-> n, cid |-> cid, p |-> ex.q[i].p, dest |-> ex.q[i].dest] : i \in DOMAIN ex.q}]
+  /\ UNCHANGED <<circ, relay, retryC, createdC, createC, pingC, pend, net, ctr, now, sweepAt, pingAt, budget>>
 
 \* data coming back from the outside world: TunnelExitSocket.tunnel_data
 ExitReturn(x, cid, p) ==
@@ -683,6 +699,7 @@ Core ==
   \/ \E o \in Origins, cid \in 1..ctr.cid, ds \in BOOLEAN : RemoveCircuit(o, cid, ds)
   \/ \E d \in net : Deliver(d)
   \/ NodeTeardown /\ \E n \in Node, cid \in 1..ctr.cid : (~\E q \in pend : q.n = n /\ q.cid = cid) /\ (NodeRemoveRelay(n, cid) \/ NodeRemoveExit(n, cid))
+  \/ \E x \in Node, cid \in 1..ctr.cid : TransportsReady(x, cid)
   \/ \E x \in Node, cid \in 1..ctr.cid, p \in 1..ctr.data : ExitReturn(x, cid, p)
   \/ \E n \in Node : AutoTimers /\ ~EarlierDue(n) /\
         ((HasEntries(n) /\ sweepAt[n] <= now /\ Sweep(n))
